@@ -111,9 +111,16 @@ def one_ir(ctx, no, tie, rng, size, want):
     if raw1[:8] != hdr:
         return fail({"C02"}, {"kind": "header"}, "file header is %r"
                     % raw1[:8])
-    msg1 = parse_file(gtirb, raw1)
-    M1 = irdump.dump_mir(msg1)
-    V0 = irdump.dump_irv(gtirb, ir0, msg_aux_bytes(gtirb, msg1, ir0))
+    try:
+        msg1 = parse_file(gtirb, raw1)
+        M1 = irdump.dump_mir(msg1)
+        V0 = irdump.dump_irv(gtirb, ir0, msg_aux_bytes(gtirb, msg1, ir0))
+    except (Exception, core.ImplTimeout) as e:   # noqa
+        return fail({"C01", "C02"}, {"kind": "saved-file-unreadable",
+                                     "exception": type(e).__name__},
+                    "the bytes written by save do not parse as the schema's "
+                    "IR message / cannot be compared: %s: %s"
+                    % (type(e).__name__, str(e)[:80]))
     replay["V0"] = " ".join(V0)[:4000]
     try:
         ir1 = load(gtirb, raw1)
@@ -122,10 +129,16 @@ def one_ir(ctx, no, tie, rng, size, want):
                                      "exception": type(e).__name__},
                     "a file produced by save was rejected by load: %s: %s"
                     % (type(e).__name__, str(e)[:80]))
-    raw2 = save(ir1)
-    msg2 = parse_file(gtirb, raw2)
-    M2 = irdump.dump_mir(msg2)
-    V1 = irdump.dump_irv(gtirb, ir1, msg_aux_bytes(gtirb, msg2, ir1))
+    try:
+        raw2 = save(ir1)
+        msg2 = parse_file(gtirb, raw2)
+        M2 = irdump.dump_mir(msg2)
+        V1 = irdump.dump_irv(gtirb, ir1, msg_aux_bytes(gtirb, msg2, ir1))
+    except (Exception, core.ImplTimeout) as e:   # noqa
+        return fail({"C01", "C17"}, {"kind": "loaded-ir-unusable",
+                                     "exception": type(e).__name__},
+                    "the IR loaded from a saved file cannot be saved again / "
+                    "inspected: %s: %s" % (type(e).__name__, str(e)[:80]))
     ctx.evaluations += 1
     nn = len(w0.nodes)
     ctx.count("nodes:%s" % ("<10" if nn < 10 else "<30" if nn < 30 else
@@ -295,6 +308,15 @@ def walk(v):
         yield v
 
 
+def is_rejection(obs):
+    """an exception outcome (`hang` is not one). WHICH exception is demanded
+    only where a property names it (C09: DeserializationError for reference
+    faults, C17: ValueError for magic / version), and those are checked by the
+    direct oracles; the model tie compares accepted-vs-rejected and the
+    content of what is accepted."""
+    return obs.startswith("err:") or obs.startswith("exc:")
+
+
 def exc_class(gtirb, e):
     from gtirb.util import DeserializationError
     if isinstance(e, DeserializationError):
@@ -359,6 +381,8 @@ def reader_one(ctx, no, tie, rng, mode):
     def cb(i, line, a, b):
         if b == "err:dup":
             return True       # outside the value-level reader
+        if is_rejection(a) and is_rejection(b):
+            return True       # rejected by both; the class is not C02's
         if ctx.prop == "C02":
             ctx.report({"kind": "reader-field-mismatch", "mode": mode},
                        dict(replay, loaded=a[:3000], expected=b[:3000]),
